@@ -2,6 +2,12 @@ import PyYetiVerif.Props.C17
 import PyYetiVerif.Props.C17Conv
 import PyYetiVerif.Props.C17Stab
 import PyYetiVerif.Props.C17Cdf
+import PyYetiVerif.Props.C17Vel
+import PyYetiVerif.Props.C17Modal
+import PyYetiVerif.Props.C17Energy
+import PyYetiVerif.Props.C17Nonlin
+import PyYetiVerif.Props.C17Opt
+import PyYetiVerif.Props.C17CdfConv
 #print axioms PyYetiVerif.C17.newmark_is_documented
 #print axioms PyYetiVerif.C17.newmark_central_differences
 #print axioms PyYetiVerif.C17.newmark_consistent
@@ -30,3 +36,38 @@ import PyYetiVerif.Props.C17Cdf
 #print axioms PyYetiVerif.C17.cdf_alpha_transposed_variant_differs
 #print axioms PyYetiVerif.C17.cdf_step_is_exact_for_interpolated_damping_force
 #print axioms PyYetiVerif.C17.cdf_run_is_unc_with_damping_force
+#print axioms PyYetiVerif.C17.newmark_velocity_is_central_difference
+#print axioms PyYetiVerif.C17.convK_eq_convE
+#print axioms PyYetiVerif.C17.newmark_velocity_converges_scalar
+#print axioms PyYetiVerif.C17.newmark_accel_converges_scalar
+#print axioms PyYetiVerif.C17.newmark_initial_accel_error_scalar
+#print axioms PyYetiVerif.C17.newmark_initial_accel_first_order
+#print axioms PyYetiVerif.C17.newmark_initial_accel_defect
+#print axioms PyYetiVerif.C17.newmark_last_step_converges_scalar
+#print axioms PyYetiVerif.C17.newmark_modal_decomposition
+#print axioms PyYetiVerif.C17.newmark_converges_modal_full
+#print axioms PyYetiVerif.C17.newmark_velocity_converges_modal_full
+#print axioms PyYetiVerif.C17.newmark_energy_stable_full
+#print axioms PyYetiVerif.C17.newmark_truncation_bound_full
+#print axioms PyYetiVerif.C17.newmark_converges_energy_partial
+#print axioms PyYetiVerif.C17.newmark_converges_energy
+#print axioms PyYetiVerif.C17.newmark_converges_energy_second_order
+#print axioms PyYetiVerif.C17.newmark_nonlin_is_documented
+#print axioms PyYetiVerif.C17.nonlin_zero_is_linear
+#print axioms PyYetiVerif.C17.nonlin_z_is_callback_output
+#print axioms PyYetiVerif.C17.def_nonlin_call_sequence
+#print axioms PyYetiVerif.C17.def_nonlin_copies_at_call
+#print axioms PyYetiVerif.C17.nonlin_rf_nonrf_part_is_run
+#print axioms PyYetiVerif.C17.nonlin_rf_placement_irrelevant
+#print axioms PyYetiVerif.C17.mNone_is_identity_mass
+#print axioms PyYetiVerif.C17.mNone_scalar_coefficients
+#print axioms PyYetiVerif.C17.rf_rows_static_full
+#print axioms PyYetiVerif.C17.cdf_order0_is_order1_with_held_force
+#print axioms PyYetiVerif.C17.cdf_accel_eom
+#print axioms PyYetiVerif.C17.cdf_f2x_is_step_sensitivity
+#print axioms PyYetiVerif.C17.cdf_f2x_matrix
+#print axioms PyYetiVerif.C17.cdf_run_is_sequence
+#print axioms PyYetiVerif.C17.cdf_error_recursion
+#print axioms PyYetiVerif.C17.cdf_converges_partial
+#print axioms PyYetiVerif.C17.cdf_local_error
+#print axioms PyYetiVerif.C17.cdf_stable_two_dof
